@@ -160,6 +160,11 @@ class Prop:
         add('enum ' + hx('[' + ','.join(str(i) for i in range(N)) + ']'), 'enum-size')
         add('regex ' + hx('/' + '(a|b)*' * (N // 1000) + '/'), 'regex-size')
         add('regex ' + hx('/' + '(' * 2000 + 'a' + ')' * 2000 + '/'), 'regex-size')
+        # expressions that compile but match nothing (a class without members), alone and as a registered type
+        for ec in ['[^\\s\\S]', '[^\\d\\D]x', 'a[^\\w\\W]', '[^\\x00-\\x{10FFFF}]', '([^\\S\\s])?', 'a|[^\\D\\d]']:
+            add('regex ' + hx('/' + ec + '/'), 'regex-matching-nothing')
+            for r in ['@r', '{\n  "k": @r\n}', '{\n  @r: 1\n}', '"x" // {type: "@r"}']:
+                add('proj all %s' % spec(r, {'@r': '/' + ec + '/'}, {}), 'regex-matching-nothing')
         # 3. every configuration of three types over a pool of bodies, with roots that use them in every position
         roots = ['{\n  "k": @a\n}', '{\n  "k": @a,\n  "l": @b\n}', '@a', '@a | @b', '{\n  @a: 1\n}', '{ // {allOf: "@a"}\n}', '1 // {type: "@a"}', '1 // {or: ["@a", "@c"]}', '{ // {additionalProperties: "@a"}\n}', '[\n  @a, @c\n]']
         combos = list(itertools.product(TYPE_BODIES, repeat=3))
